@@ -151,9 +151,9 @@ CHECKS["C05"] = dict(
 )
 
 CHECKS["C01"] = dict(
-    technique="Coq models of the pure Python fragment (Lib/PyEval.v: values with identity, ==, is, <, in, and/or/not, conditional, min/max, sorted) and of statements over mutable lists/sets behind references (Lib/PyHeap.v), with one soundness theorem per rewrite rule in the fragment (guarded where the unguarded statement is refuted by a vm_compute witness); FURB123's cast table translated from source with a table-soundness theorem; the models are tied to CPython by vm_compute correspondence; check() of FURB110/114/136/171 translated from source into Gallina matchers with message templates (typed symbolic translator, tied to the real functions on harvested mypy nodes) and proved sound over a syntactic evaluator (Lib/PySyn.v) for arbitrary operand expressions; check() of the library idioms FURB104/141/144/146/155/163 translated the same way (one generated file each) and proved EQUAL, as functions from any call node and any answer of the type resolution to the printed messages, to a specification written from the pathlib correspondence table and the definition of log2/log10 (Props/C01/C01LibSpec.v); every rule instance (72 checks), every single-site neighbouring shape (siblings, slice bounds, keyword arguments), every member of the table-driven families and every operand written as a compound expression is linted by the real refurb, the replacement is taken from the message it prints (and must parse as the intended tree), and original and replacement are executed in CPython over typed operand products",
+    technique="Coq models of the pure Python fragment (Lib/PyEval.v: values with identity, ==, is, <, in, and/or/not, conditional, min/max, sorted) and of statements over mutable lists/sets behind references (Lib/PyHeap.v), with one soundness theorem per rewrite rule in the fragment (guarded where the unguarded statement is refuted by a vm_compute witness); FURB123's cast table translated from source with a table-soundness theorem; the models are tied to CPython by vm_compute correspondence; check() of FURB110/114/136/171 translated from source into Gallina matchers with message templates (typed symbolic translator, tied to the real functions on harvested mypy nodes) and proved sound over a syntactic evaluator (Lib/PySyn.v) for arbitrary operand expressions; check() of the library idioms FURB104/141/144/146/155/163/181 translated the same way (one generated file each) and proved EQUAL, as functions from any call node and any answer of the type resolution to the printed messages, to a specification written from the pathlib correspondence table and the definition of log2/log10 (Props/C01/C01LibSpec.v); every rule instance (72 checks), every single-site neighbouring shape (siblings, slice bounds, keyword arguments), every member of the table-driven families and every operand written as a compound expression is linted by the real refurb, the replacement is taken from the message it prints (and must parse as the intended tree), and original and replacement are executed in CPython over typed operand products",
     category="proof",
-    text="Partial. Proved for all operands: the 40 rule theorems in Props/C01 (FURB108/110/114/115/124/136/143/149/168/169/171/191/192 in their modelled operand types; statements FURB113/131/132/142/148/186/187; FURB123's table), each with its guard and, where the guard is needed, a refutation witness; and, over the check functions as translated from source (GenMatch.v) with the translated is_equivalent as sameness guard: whatever tree FURB110, 114, 136 (eight operator/branch shapes, integer operands) or 171 (guard: reflexive operand) reports evaluates like the replacement its message names, for every assignment of values to names and literals and arbitrary sub-expressions as operands (Props/C01/C01Match.v); for FURB104, 141, 144, 146, 155 and 163 the advice printed is exactly what the specification table says for every call, every spelling of the callee (name, attribute, platform alias of os.path) and every typing of the argument (Props/C01/C01Lib<code>.v) -- which os function corresponds to which Path member, and that the library functions behave alike, is decided by execution on a scratch directory whose files have distinct access/modification/change times. For the other checks (library calls, file system, the remaining statements) equivalence is decided by execution over finite operand products only (value, type, exception class, stdout, aliasing, operand mutation, scratch directory tree).",
+    text="Partial. Proved for all operands: the 40 rule theorems in Props/C01 (FURB108/110/114/115/124/136/143/149/168/169/171/191/192 in their modelled operand types; statements FURB113/131/132/142/148/186/187; FURB123's table), each with its guard and, where the guard is needed, a refutation witness; and, over the check functions as translated from source (GenMatch.v) with the translated is_equivalent as sameness guard: whatever tree FURB110, 114, 136 (eight operator/branch shapes, integer operands) or 171 (guard: reflexive operand) reports evaluates like the replacement its message names, for every assignment of values to names and literals and arbitrary sub-expressions as operands (Props/C01/C01Match.v); for FURB104, 141, 144, 146, 155, 163 and 181 the advice printed is exactly what the specification table says for every call, every spelling of the callee (name, attribute, platform alias of os.path) and every typing of the argument (Props/C01/C01Lib<code>.v) -- which os function corresponds to which Path member, and that the library functions behave alike, is decided by execution on a scratch directory whose files have distinct access/modification/change times. For the other checks (library calls, file system, the remaining statements) equivalence is decided by execution over finite operand products only (value, type, exception class, stdout, aliasing, operand mutation, scratch directory tree).",
     note="Trusted: Coq kernel; hand-written PyEval/PyHeap models (tied by correspondence on the operand products the engine executes); the cast-table translator; the matcher translator tools/vf/translate/matchers.py (tied by the matcher correspondence; the helpers normalize_os_path and is_pathlike are transliterated in Lib/PyMatch.v and pinned to their source text, a different text fails closed) and Lib/PySyn.v (names and literals are parameters; operands containing conditional/lambda/await/walrus nodes are outside the structural fragment); rule table tools/vf/props/c01_rules.py (an instance per check, replacement read from refurb's own message); CPython as the reference semantics; the list of immutable builtins in Props/C01/C01Tables.v.",
     ref="C01",
 )
